@@ -4,9 +4,11 @@ import Mathlib.Data.Rat.Floor
 import Mathlib.Tactic.NormNum
 /-! # C19 — grid summarising conserves observations and aggregates per cell
 
-Property theorems only (helper lemmas: `Lemmas/Raster.lean`; model: `Model/Raster.lean`).
-`getCell`, `scatter`, `cellValue`, `aggregates` are the models of `Raster.getCell`,
-`Raster.addCollectionToRaster`, the `co_*` cell operators and `Raster.computeAggregates`.
+Property theorems only (helper lemmas: `Lemmas/Raster.lean`, `Lemmas/RasterSession.lean`; models: `Model/Raster.lean`,
+`Model/RasterSession.lean`). `getCell`, `scatter`, `cellValue`, `aggregates` are the models of `Raster.getCell`, the scatter
+loop of `Raster.addCollectionToRaster`, the `co_*` cell operators and the per-band loop of `Raster.computeAggregates`;
+`addBand`, `addColl`, `computeAll`, `run` those of the calls `addAFMap`, `addCollectionToRaster`, `computeAggregates` and of
+sequences of calls on one `Raster` object; `summarizeS` that of `summarize`.
 Scalars: any linearly ordered field with a floor function (`ℚ`, `ℝ`); `floor`/`ceil` are `Int.floor`/`Int.ceil`.
 A feature value `none` is NaN. `WF g` says the grid is the one the constructor builds on a bounding box
 `xmin ≤ xmax`, `ymin ≤ ymax` — zero width and zero height included: all observations on one vertical or horizontal
@@ -143,6 +145,39 @@ theorem add_collection_spec (s : RState α) (hg : WF s.g) (afo : List String) (T
                 (T.flatMap (fun t => obsOf t af))) :=
   ⟨valsOf s.g afo T, addColl_ok s hg afo T hperm hfeat hin, fun af => valsOf_spec s.g hg afo T hfeat hin af⟩
 
+/-- Conservation on a raster with a history: after `addCollectionToRaster` (hypotheses of `add_collection_spec`), for every
+feature of the bands the sizes of the cells add up to the number of observations of THIS collection (each observation is
+in exactly one cell, nothing of an earlier collection is counted), and any per-value weight is conserved — with the
+weight "is not NaN": the entries of a `co_count` band add up to the number of non-NaN values. -/
+theorem add_collection_conservation (s : RState α) (hg : WF s.g) (afo : List String) (T : List (Trk α))
+    (hperm : afo.isPerm (afsOf s.bands) = true)
+    (hfeat : ∀ t ∈ T, ∀ af ∈ afo, (featVals t af).isSome = true) (hin : ∀ t ∈ T, InExtent s.g t)
+    (af : String) (haf : af ∈ afo) :
+    ∃ (V : Vals α) (c : Cells (Option α)), addColl Int.floor s afo T = ({ s with values := some V }, none) ∧ V.lookup af = some c
+      ∧ (∑ i ∈ Finset.range s.g.nrow.toNat, ∑ j ∈ Finset.range s.g.ncol.toNat, (cellAt c i j).length)
+          = (T.flatMap (fun t => obsOf t af)).length
+      ∧ ∀ w : Option α → ℕ, (∑ i ∈ Finset.range s.g.nrow.toNat, ∑ j ∈ Finset.range s.g.ncol.toNat, ((cellAt c i j).map w).sum)
+          = ((T.flatMap (fun t => obsOf t af)).map (fun o => w o.2.2)).sum := by
+  obtain ⟨V, hV, hspec⟩ := add_collection_spec s hg afo T hperm hfeat hin
+  obtain ⟨c, hl, _, hc⟩ := (hspec af).2 haf
+  have hrange : ∀ o ∈ T.flatMap (fun t => obsOf t af), ∃ col line : Int, getCell Int.floor s.g o.1 o.2.1 = some (col, line)
+      ∧ 0 ≤ col ∧ col < (s.g.ncol.toNat : ℤ) ∧ 0 ≤ line ∧ line < (s.g.nrow.toNat : ℤ) := by
+    intro o ho
+    obtain ⟨t, ht, hot⟩ := List.mem_flatMap.1 ho
+    have hp := hin t ht _ (obsOf_mem t af o hot)
+    obtain ⟨cc, r, h, c0, c1, r0, r1, _⟩ := getCell_footprint s.g hg o.1 o.2.1 hp.1 hp.2
+    refine ⟨cc, r, h, c0, ?_, r0, ?_⟩
+    · rw [Int.toNat_of_nonneg hg.ncol_pos.le]; exact c1
+    · rw [Int.toNat_of_nonneg hg.nrow_pos.le]; exact r1
+  have hw := located_weight_sum (fun o : α × α × Option α => getCell Int.floor s.g o.1 o.2.1) (fun o => o.2.2)
+  refine ⟨V, c, hV, hl, ?_, ?_⟩
+  · have := hw (fun _ => 1) s.g.nrow.toNat s.g.ncol.toNat _ hrange
+    simp only [hc]
+    simpa using this
+  · intro w
+    simp only [hc]
+    exact hw w s.g.nrow.toNat s.g.ncol.toNat _ hrange
+
 /-- the observations handed to the scatter for a feature the track has (a value per position) are all its positions, in
 order: none is dropped -/
 theorem obs_cover (t : Trk α) (af : String) (vs : List (Option α)) (h : featVals t af = some vs) (hl : vs.length = t.pts.length) :
@@ -171,6 +206,30 @@ theorem add_collection_missing_feature (floor : α → Int) (s : RState α) (afo
     exact ⟨af, haf, by rw [hmiss]; rfl⟩
   rw [h1, h2]
   simp
+
+/-- an observation outside the extent (every track having every feature, at least one band): `getCell` returns `None`,
+the unpacking raises `TypeError`; bands and geometry are untouched (the values scattered before it stay, see the model) -/
+theorem add_collection_outside (s : RState α) (hg : WF s.g) (afo : List String) (T : List (Trk α))
+    (hperm : afo.isPerm (afsOf s.bands) = true) (hne : afo ≠ [])
+    (hfeat : ∀ t ∈ T, ∀ af ∈ afo, HasFeat t af) (hout : ∃ t ∈ T, ∃ p ∈ t.pts, ¬ Inside s.g p.1 p.2) :
+    (addColl Int.floor s afo T).2 = some .type ∧ (addColl Int.floor s afo T).1.bands = s.bands
+      ∧ (addColl Int.floor s afo T).1.g = s.g := by
+  refine ⟨?_, (addColl_g _ s afo T).2, (addColl_g _ s afo T).1⟩
+  unfold addColl
+  have h1 : (!(afo.isPerm (afsOf s.bands))) = false := by rw [hperm]; rfl
+  have h2 : (T.any (fun t => afo.any (fun af => (featVals t af).isNone))) = false := by
+    rw [List.any_eq_false]
+    intro t ht
+    rw [Bool.not_eq_true, List.any_eq_false]
+    intro af haf
+    obtain ⟨vs, hvs, _⟩ := hfeat t ht af haf
+    rw [hvs]; simp
+  rw [h1, h2]
+  simp only [Bool.false_eq_true, ↓reduceIte]
+  apply addTracks_outside s.g hg T _ (fun e => hne (List.map_eq_nil_iff.1 e)) ?_ hout
+  intro e he
+  obtain ⟨af, haf, rfl⟩ := List.mem_map.1 he
+  exact ⟨rect_empty _ _, fun t ht => hfeat t ht af haf⟩
 
 /-- The invariant over operation sequences. Take ANY sequence of calls `pre` on a new raster (bands added, other
 collections scattered and aggregated, calls that raised — anything), then `addCollectionToRaster` of a collection `T` inside
